@@ -683,7 +683,7 @@ SUBCHECKS = [
         "scores_and_parts",
         oracle_sampled,
         strategy=strat_sampled,
-        budget={"quick": 80, "thorough": 2500},
+        budget={"quick": 160, "thorough": 2500},
         rule="generated scores (1-2 parts, optional part group) and bare parts with tie chains, chords, grace notes, 1-2 voices/staves, alterations -2..2, any of the 78 directed interval classes; transposed and transposed back; every pitched note judged by id (|alter'| <= 2), everything else by fingerprint, argument by identity fingerprint; non-trivial = interval other than P1 and a tie chain, grace note or chord present",
         known=KNOWN_SAMPLED,
         floors={"tie-chain": 0.15, "grace-notes": 0.05, "chords": 0.15, "arg-part": 0.15, "arg-score": 0.3, "direction-down": 0.25, "tied-continuation-judged": 0.1},
